@@ -47,6 +47,7 @@ def extra_jobs(tier, seed, env):
     try:
         from . import c10
         jobs += c10.compare_jobs(tier, seed, env)
+        jobs += c10.cross_jobs(tier, seed, env)
     except ImportError:
         pass
     return jobs
